@@ -57,6 +57,9 @@ func checkC01(c *Ctx) {
 	c.Decides("NO-UNIQ-IN-READ: the Newick Parse function does not reach Tree.UpdateTipIndex (statically resolved calls, depth 8): tip names need not be unique in the property's trees and the index refuses repeated names")
 	c.noUniqInRead("NO-UNIQ-IN-READ", []*FuncInfo{c.Func("io/newick", "Parser", "Parse")}, "reading back gives the same tree")
 	c.Floor("NO-UNIQ-IN-READ", 1)
+	c.Decides("TOKENS-ALIKE: every enumeration of token kinds in the Newick reader that names one of the kinds its token switch handles in one clause (IDENT, NUMERIC: a label) names them all")
+	c.tokensAlike("TOKENS-ALIKE", c.Func("io/newick", "Parser", "parseIter"), c.AllFuncs("io/newick"), "the same comments")
+	c.Floor("TOKENS-ALIKE", 1)
 	c.Decides("MUST-EOT (go/cfg): the Newick Parse function reports success only after testing the token that follows the tree against EOT")
 	c.mustSeeEOT("MUST-EOT", c.Func("io/newick", "Parser", "Parse"), "reading back gives the same tree")
 	c.Floor("MUST-EOT", 1)
